@@ -123,7 +123,8 @@ def generate(rng, tier):
         if sk == 'doc':
             styp, subj = 0x00, {'kind': 'doc', 'data': bytes(rng.randrange(256) for _ in range(rng.choice([0, 1, 17, 200]))).hex()}
         elif sk == 'text':
-            styp, subj = 0x01, {'kind': 'text', 'value': rng.choice(['', 'one line', 'a\nb\n', 'a\r\nb', 'träiling \n'])}
+            styp, subj = 0x01, {'kind': 'text', 'value': rng.choice(['', 'one line', 'a\nb\n', 'a\r\nb', 'träiling \n']),
+                                   'as': rng.choice(['str', 'str', 'bytes', 'bytearray'])}
         elif sk == 'none':
             styp, subj = rng.choice([0x02, 0x40]), {'kind': 'none'}
         elif sk == 'uid':
@@ -360,7 +361,11 @@ def _subject(pgpy, pkey, pub, uid_octets, subj):
         d = bytes.fromhex(subj['data'])
         return d, d
     if k == 'text':
-        return subj['value'], rsigs.canon_text(subj['value'].encode('utf-8'))
+        # the text document may reach verify() as str or as its octets: the line-ending conversion is applied to the document,
+        # never to the signature's own octets
+        octs = subj['value'].encode('utf-8')
+        given = {'bytes': octs, 'bytearray': bytearray(octs)}.get(subj.get('as'), subj['value'])
+        return given, rsigs.canon_text(octs)
     if k == 'none':
         return None, b''
     if k == 'uid':
